@@ -19,9 +19,12 @@ Vocabulary (defined in the Proofs files, all explicit):
 import DSymVerif.Proofs.CoversWitness
 import DSymVerif.Proofs.CoversOrientedDeg
 import DSymVerif.Proofs.CoversMonitors
+import DSymVerif.Proofs.CoversWired
+import DSymVerif.Proofs.DSetExamples
 
 namespace DSymVerif.C05
-open DSymVerif.DS DSymVerif.Covers DSymVerif.C05W
+open DSymVerif.DS DSymVerif.Covers DSymVerif.C05W DSymVerif.CoversP DSymVerif.FG DSymVerif.Cosets
+open DSymVerif.LowIndexP
 
 /-! ### 1. `build_set` accepts exactly the involutions -/
 
@@ -236,7 +239,7 @@ example : sym1.view.isOriented = false := by decide
     sheet map of `cover_for_table` is compatible, the model returns and the result is a covering
     with `table.len()` sheets in the sense of `cover_is_covering`. -/
 theorem cover_for_table_compat (s : DSymData) (hs : ValidTables s) (hsz : 1 ≤ s.size) (hdim : 1 ≤ s.dim)
-    (t : Table) (hlen : 1 ≤ t.len) (e2w : EdgeWords)
+    (t : Covers.Table) (hlen : 1 ≤ t.len) (e2w : EdgeWords)
     (ht : t.InvConsistent) (he : EdgeWordsOk s t e2w) (hd : allTracesDefined s t e2w = true) :
     SheetCompat s.dset t.len (sheetMap t e2w) ∧
     ∃ c, coverForTable s t e2w = .ok c ∧ c.size = t.len * s.size ∧ c.dim = s.dim ∧ ValidTables c ∧
@@ -249,7 +252,7 @@ theorem cover_for_table_compat (s : DSymData) (hs : ValidTables s) (hsz : 1 ≤ 
   exact ⟨c, by rw [coverForTable_eq_cover hd]; exact hc, hsize, hdim', hct, hproj⟩
 
 /-- the one-row table without generators (trivial group) and no edge words -/
-example : (⟨0, #[#[-1]]⟩ : Table).InvConsistent ∧ EdgeWordsOk sym1 ⟨0, #[#[-1]]⟩ [] ∧
+example : (⟨0, #[#[-1]]⟩ : Covers.Table).InvConsistent ∧ EdgeWordsOk sym1 ⟨0, #[#[-1]]⟩ [] ∧
     allTracesDefined sym1 ⟨0, #[#[-1]]⟩ [] = true := by
   refine ⟨?_, ?_, by decide⟩
   · intro c g r hc hg
@@ -258,7 +261,7 @@ example : (⟨0, #[#[-1]]⟩ : Table).InvConsistent ∧ EdgeWordsOk sym1 ⟨0, #
       have : c < 1 := hc
       omega
     subst hc0
-    unfold Table.get at hg
+    unfold Covers.Table.get at hg
     rw [if_pos hc] at hg
     simp only at hg
     split at hg
@@ -280,6 +283,70 @@ example : (⟨0, #[#[-1]]⟩ : Table).InvConsistent ∧ EdgeWordsOk sym1 ⟨0, #
         cases hg
   · intro i d _ _ _
     exact Or.inl rfl
+
+/-! ### 5b. the wired models: `covers`, `subgroup_cover`, `finite_universal_cover`
+
+`Covers.covers`, `Covers.subgroupCover`, `Covers.finiteUniversalCover` (Model/CoversWired.lean) are
+the compositions  fundamental_group → coset_tables / coset_table → cover_for_table  of the models
+of C09, C11, C12.  `IsCoverOf ds c n` (Proofs/CoversWired.lean):  `c` is a valid symbol (complete
+D-set, involutions, far operations commute, tables of `collect_orbits`) on `n·|ds|` chambers, `n ≥ 1`,
+of the dimension of `ds`; the projection commutes with every operation; the degree `m_ij` of every
+chamber equals that of its projection for ALL `i, j`; `c` is `is_complete()` if `ds` is; and `c` is
+connected if `ds` is.  The proof goes through the monodromy representation of the textbook
+orbifold group of C09 on the rows of a valid table (C11 `Valid`): pairing relators give
+compatibility, the 2-orbit relators `walk^v` make `r·v` a period of every chamber of the cover,
+tree relators and transitivity of the table give connectedness. -/
+
+/-- **table_cover_is_covering.**  For every valid symbol `ds` (size, dim ≥ 1) and every bound `k`
+    the model of `covers(ds, k)`, run with enough fuel to exhaust the search tree of
+    `coset_tables`, returns — no panic anywhere — exactly one cover per yielded coset table, in
+    order, and every one is a covering of `ds` in the sense of `IsCoverOf` (degree-preserving without
+    any premise, connected if `ds` is) with `table.len() ≤ max k 1` sheets. -/
+theorem table_cover_is_covering (ds : DSymData) (hs : ValidSym ds) (hsz : 1 ≤ ds.size) (hdim : 1 ≤ ds.dim)
+    (k fuel : Nat) :
+    ∃ f, fundamentalGroup ds = .ok f ∧
+      ((BT.dfs (btProblem f.nrGenerators (expandedRelatorSet f.relators) k) (height k)
+          (.ok (Cosets.Table.new f.nrGenerators))).length ≤ fuel →
+        ∃ cs, Covers.covers ds k fuel = .ok cs ∧
+          List.Forall₂ (fun x c => ∃ t, x = Outcome.ok t ∧ coverForTableC ds t f.edgeToWord = .ok c ∧
+            IsCoverOf ds c t.len ∧ t.len ≤ max k 1)
+            (cosetTables f.nrGenerators f.relators k fuel) cs) :=
+  covers_covering hs hsz hdim k fuel
+
+example : ValidSym (DSymData.ofSimple ex2) ∧ 1 ≤ (DSymData.ofSimple ex2).size ∧
+    1 ≤ (DSymData.ofSimple ex2).dim := ⟨ex2_validSym, by decide, by decide⟩
+
+/-- **subgroup_cover_is_covering.**  Whenever the model of `subgroup_cover(ds, subgens)` returns
+    (Todd–Coxeter may hit its 100 000-row assertion for subgroups of infinite index), with subgroup
+    generators over the letters `±1..±n` of the fundamental group, the result is a covering of
+    `ds` whose number of sheets is the number of rows of the coset table. -/
+theorem subgroup_cover_is_covering (ds : DSymData) (hs : ValidSym ds) (hsz : 1 ≤ ds.size)
+    (hdim : 1 ≤ ds.dim) (subgens : List (List Int)) (c : DSymData)
+    (hc : subgroupCover ds subgens = .ok c) :
+    ∃ f t, fundamentalGroup ds = .ok f ∧ cosetTable f.nrGenerators f.relators subgens = .ok t ∧
+      ((∀ w ∈ subgens, ∀ x ∈ w, x ∈ allGensOf f.nrGenerators) → IsCoverOf ds c t.len) :=
+  subgroupCover_covering hs hsz hdim subgens hc
+
+example : ValidSym (DSymData.ofSimple ex2) ∧ 1 ≤ (DSymData.ofSimple ex2).size ∧
+    1 ≤ (DSymData.ofSimple ex2).dim := ⟨ex2_validSym, by decide, by decide⟩
+
+/-- **finite_universal_cover_is_covering.**  Whenever the model of `finite_universal_cover(ds)`
+    returns, the result is a covering of `ds` (connected if `ds` is) with as many sheets as the
+    coset table of the trivial subgroup has rows — by C11 `coset_table_correct` the order of the
+    fundamental group. -/
+theorem finite_universal_cover_is_covering (ds : DSymData) (hs : ValidSym ds) (hsz : 1 ≤ ds.size)
+    (hdim : 1 ≤ ds.dim) (c : DSymData) (hc : finiteUniversalCover ds = .ok c) :
+    ∃ f t, fundamentalGroup ds = .ok f ∧ cosetTable f.nrGenerators f.relators [] = .ok t ∧
+      IsCoverOf ds c t.len :=
+  finiteUniversalCover_covering hs hsz hdim hc
+
+example : ValidSym (DSymData.ofSimple ex2) ∧ 1 ≤ (DSymData.ofSimple ex2).size ∧
+    1 ≤ (DSymData.ofSimple ex2).dim := ⟨ex2_validSym, by decide, by decide⟩
+
+/-- every fibre of the projection of an `n`-sheeted cover has exactly `n` chambers -/
+theorem cover_fibres (sz b n : Nat) (hb1 : 1 ≤ b) (hb2 : b ≤ sz) :
+    (((List.range (n * sz)).map (· + 1)).filter (fun d => decide (cproj sz d = b))).length = n :=
+  fibre_length hb1 hb2 n
 
 /-! ### 6. the hypotheses are decidable and are evaluated by the driver on every explored input -/
 
